@@ -349,6 +349,27 @@ func genAnyMsg(t *rapid.T, zone string) (*rgen.Msg, bool) {
 		pos := rapid.IntRange(0, len(m.Entities)).Draw(t, "dupPos")
 		m.Entities = append(m.Entities[:pos], append([]rgen.Entity{e}, m.Entities[pos:]...)...)
 	}
+	if rapid.IntRange(0, 3).Draw(t, "contestedVehicle") == 0 {
+		// one vehicle claimed by two or three trip updates and, in its own position, naming yet another trip that has no
+		// update of its own - in a generated order
+		v := rgen.VehDesc{ID: rgen.P("contested")}
+		var es []rgen.Entity
+		for i := rapid.IntRange(2, 3).Draw(t, "claimants"); i > 0; i-- {
+			vv := v
+			es = append(es, rgen.Entity{ID: fmt.Sprintf("claim%d", i), TU: &rgen.TripUpdate{Trip: rgen.TripDesc{TripID: rgen.P(fmt.Sprintf("claimant-%d", i))}, Vehicle: &vv}})
+		}
+		vv := v
+		vp := rgen.Entity{ID: "contested-position", VP: &rgen.VehiclePos{Vehicle: &vv, Trip: &rgen.TripDesc{TripID: rgen.P("claimant-position-only")}, StopID: rgen.P("S1")}}
+		if rapid.Bool().Draw(t, "positionLast") {
+			es = append(es, vp)
+		} else {
+			pos := rapid.IntRange(0, len(es)).Draw(t, "positionAt")
+			es = append(es[:pos], append([]rgen.Entity{vp}, es[pos:]...)...)
+		}
+		pos := rapid.IntRange(0, len(m.Entities)).Draw(t, "contestedAt")
+		m.Entities = append(m.Entities[:pos], append(es, m.Entities[pos:]...)...)
+		dup = true
+	}
 	return m, dup
 }
 
@@ -459,4 +480,24 @@ func TestC07Less(t *testing.T) {
 		}
 		vt.Run(t, c07LessRec, c, checkC07Less)
 	})
+}
+
+// TestC07Large: 9000 / 70000 trips and vehicles (and one update of 20000 stop time updates) in reversed and in rotated entity order.
+func TestC07Large(t *testing.T) {
+	largeRT(t, c07PermRec, [][2]int{{0, 9000}, {0, 70000}, {1, 20000}}, func(t *rapid.T, zone string, m *rgen.Msg) CaseC07Perm {
+		n := len(m.Entities)
+		perm := make([]int, n)
+		rot := rapid.IntRange(0, max(0, n-1)).Draw(t, "rotateBy")
+		rev := rapid.Bool().Draw(t, "reversed")
+		for i := range perm {
+			if rev {
+				perm[i] = n - 1 - i
+			} else {
+				perm[i] = (i + rot) % n
+			}
+		}
+		c := CaseC07Perm{Zone: zone, Msg: m, Perm: perm}
+		c.Env = genEnv(t)
+		return c
+	}, checkC07Perm)
 }
